@@ -299,3 +299,19 @@ Proof.
   rewrite Hi, Hk, Hp, Hpe. destruct (is_triggered pe); [reflexivity|].
   rewrite Ht, Htev. destruct (cbs tev) as [l|]; [|reflexivity]. destruct (mem_cb (CbResume p) l); reflexivity.
 Qed.
+
+(* ---- StopSimulation.callback ------------------------------------------------------------------------------------- *)
+Definition stop_cb_fx (e : evid) (s : state) (fx : list kernel_fx) : option (state * result) :=
+  match fx, get_event e s with
+  | [FxRaiseStopValue], Some ev => match out ev with Some (Ok v) => Some (s, RStop v) | _ => None end
+  | [FxRaiseEventValue], Some ev => match out ev with Some (Fail x) => Some (s, RRaise x) | _ => None end
+  | _, _ => None
+  end.
+
+Lemma bridge_stop_cb e s ev o :
+  get_event e s = Some ev -> out ev = Some o ->
+  stop_cb_fx e s (gen_StopSimulation_callback (match o with Ok _ => true | Fail _ => false end)) = Some (stop_cb e s).
+Proof.
+  intros H Ho. unfold stop_cb, stop_cb_fx, gen_StopSimulation_callback. rewrite H, Ho.
+  destruct o; cbn; rewrite ?H, ?Ho; reflexivity.
+Qed.
